@@ -313,7 +313,7 @@ PROPS = {
     "C20": {
         "kcheck": True,
         "onep": True,
-        "generated": ["gopools2v"],
+        "generated": ["gopools2v", "gowrites2v"],
         "rule": "size classes: findPool / findPutPool compared with the exact-arithmetic model for EVERY size 0..max+2 of 40 "
                 "configurations (incl. non-power-of-two min/max; one model line per configuration, ~114k sizes); 300 (thorough 8000) "
                 "Get/Put histories with content fingerprints and pointer-distinctness of held buffers; 16 concurrent workers holding "
@@ -321,7 +321,7 @@ PROPS = {
                 "that force sync.Pool to hand back the object put last (GOMAXPROCS(1)): one-way warm-up, overlapping requests completed "
                 "in reverse order, full then partial arguments, for plain and Reset-able types; distinct = distinct case; non-trivial = "
                 "max > min / history / schedule with at least 2 requests",
-        "theorems": ["C20_get_fits_its_class", "C20_put_is_big_enough", "C20_get_returns_requested_length", "C20_exclusive_ownership",
+        "theorems": ["C20_frame_buffers_follow_the_discipline_at_every_site", "C20_get_fits_its_class", "C20_put_is_big_enough", "C20_get_returns_requested_length", "C20_exclusive_ownership",
                      "C20_single_owner", "C20_handle_request_keeps_the_discipline"],
         "assumptions": ["sync.Pool is an oracle: Get may return any object that was put or a new one (the theorem holds for every choice)",
                         "float64 math.Log2 in findPool/findPutPool is tied to the exact model only by the exhaustive per-configuration "
@@ -469,9 +469,8 @@ PROPS = {
                       "free buffers).",
     },
     "C09": {
-        "generated": ["gopools2v"],
         "onep": True,
-        "generated": ["gowrites2v"],
+        "generated": ["gopools2v", "gowrites2v"],
         "rule": "real client -> real server over 5 transports {in-memory, tcp, unix, http-connect, websocket} x 5 codecs {raw bytes, JSON, "
                 "protobuf, MessagePack, Thrift} x compression {none, gzip}: sequential calls with argument sizes {0, 1, 700..1030 "
                 "(both sides of the 1024-byte threshold for every codec's overhead), 5000, 64 Ki, 1 Mi (in-memory; all transports in the "
